@@ -94,6 +94,24 @@ func runC02(c *Ctx, sc c02Scenario, ch Chooser) (trace []string, failed bool) {
 	type vis struct {
 		t    *Thr
 		live bool
+		late bool // spawned after the updating goroutine had finished: "the first report pass that starts afterwards"
+	}
+	// the clause about the first pass after the updates have stopped, judged directly (no model): when a pass that
+	// STARTED after the last update returns, the reporter's most recent value is the last update
+	lateDone := func(v *vis) {
+		if !v.late || failed || len(updatesDone) == 0 {
+			return
+		}
+		last := updatesDone[len(updatesDone)-1]
+		if len(delivered) == 0 || delivered[len(delivered)-1] != last {
+			got := "nothing has been delivered"
+			if len(delivered) > 0 {
+				got = "the most recent delivery is " + u64hex(delivered[len(delivered)-1])
+			}
+			c.Cov.Fail(Failure{Kind: "violated", Clause: "latest-value", Signature: "c02-" + sc.name + "-late-pass", Line: strings.Join(trace, " | "),
+				Reply: fmt.Sprintf("pass %s started after the last update (%s) and has returned; %s", v.t.Name, u64hex(last), got)})
+			failed = true
+		}
 	}
 	var viss []*vis
 	for {
@@ -151,7 +169,7 @@ func runC02(c *Ctx, sc c02Scenario, ch Chooser) (trace []string, failed bool) {
 		case "spawn":
 			id := len(viss)
 			t := s.Spawn("r"+strconv.Itoa(id), func() { tally.VerifReportOnce(root) })
-			viss = append(viss, &vis{t: t, live: true})
+			viss = append(viss, &vis{t: t, live: true, late: !wLive})
 		case "r":
 			v := o.v
 			tid := v.t.Name[1:]
@@ -172,11 +190,15 @@ func runC02(c *Ctx, sc c02Scenario, ch Chooser) (trace []string, failed bool) {
 					say(fmt.Sprintf("r %s visit-end none%d", tid, len(got)))
 				}
 				v.live = label != "done"
+				if !v.live {
+					lateDone(v)
+				}
 			case label == "done":
 				if before != "start" {
 					say(fmt.Sprintf("r %s visit-end", tid))
 				}
 				v.live = false
+				lateDone(v)
 			default:
 				say(fmt.Sprintf("r %s %s", tid, label))
 			}
